@@ -99,11 +99,11 @@ var props = []*core.Property{
 		notCovered: []string{"order/content independence as a behavioural fact for every document"},
 		rules:      []*core.Rule{ruleStackBalance, ruleQueryTables, ruleQueryDiscipline, ruleJSONNodes, ruleTokenGate, ruleParseResults, rulePools}}),
 	mk(pd{id: "C11", level: "other",
-		levelText:  "BOM table and order; BOM first; every return of utf-8 is control dependent on utf8.Valid or the ASCII test; the ASCII class, tabulated over 256 bytes through the class table, is 7-bit and contains printable ASCII; the validated buffer is the input minus at most an incomplete final rune (FullRune-guarded); Latin fallback: C1 predicate table, flag monotone, verdict names.",
+		levelText:  "BOM table and order; BOM first, also when the HTML / XML sniffers fall back for a document without a declaration; every return of utf-8 is control dependent on utf8.Valid or the ASCII test; the ASCII class, tabulated over 256 bytes through the class table, is 7-bit and contains printable ASCII; the validated buffer is the input minus at most an incomplete final rune (FullRune-guarded); Latin fallback: C1 predicate table, flag monotone, verdict names.",
 		technique:  "finite-domain tabulation through constant tables; control-dependence rules",
 		expl:       "decides the decision structure of the plain sniffer for every byte string",
 		notCovered: []string{"truthfulness for every byte string as a whole (utf8.Valid semantics are trusted)"},
-		rules:      []*core.Rule{ruleBOMTable, rulePlainReturns, ruleASCIIClass, ruleTrim, ruleLatin}}),
+		rules:      []*core.Rule{ruleBOMTable, rulePlainReturns, ruleASCIIClass, ruleTrim, ruleLatin, ruleSnifferMap}}),
 	mk(pd{id: "C12", level: "other",
 		levelText:  "Sniffer map roles; the XML decoder has a usable CharsetReader before the first token; every returned label is lower-cased (XML: strings.ToLower; HTML: in-place ASCII lower-casing tabulated over 256 bytes, before any use); BOM dominates the meta prescan; utf-16* -> utf-8; pragma decision table over the prescan state equals WHATWG, per-tag state is reset.",
 		technique:  "typestate (field store before first token call); finite-domain tabulation; dominance rules",
@@ -123,11 +123,11 @@ var props = []*core.Property{
 		notCovered: []string{},
 		rules:      []*core.Rule{ruleExtend, ruleLookup, ruleWalkDiscipline, ruleFreshResults, ruleWriteOnce, ruleSnapshot, ruleParams, rulePkgState}}),
 	mk(pd{id: "C15", level: "other",
-		levelText:  "Both operands of every comparison in Is / EqualsAny are ParseMediaType results, except alias operands, which are registered normalised; every registered name and alias is a lower-case token/token; every alias / candidate is visited; lookup compares exactly; results' type strings come only from FormatMediaType over a registered name.",
-		technique:  "value-provenance rule on string comparisons; token grammar on folded constants",
+		levelText:  "Both operands of every comparison in Is / EqualsAny are ParseMediaType results, except alias operands, which are registered normalised; every registered name and alias is a lower-case token/token; every alias / candidate is visited; lookup compares exactly; results' type strings come only from FormatMediaType over a registered name; every result copy carries the aliases of the node it was made from.",
+		technique:  "value-provenance rule on string comparisons; token grammar on folded constants; field-copy rule on result clones",
 		expl:       "decides normalisation discipline of the equality helpers",
 		notCovered: []string{"ParseMediaType invariances (stdlib)"},
-		rules:      []*core.Rule{ruleAliases, ruleNames, ruleEquality, ruleLookup, ruleParams, rulePkgState}}),
+		rules:      []*core.Rule{ruleAliases, ruleNames, ruleEquality, ruleLookup, ruleParams, rulePkgState, ruleCloneChain}}),
 	mk(pd{id: "C16", level: "proof",
 		levelText:  "Every recursive SCC of module functions is either the scanner family — guard tabulated around the cap, depth grows on every cycle through the guard, every construction installs a positive constant cap, nothing overwrites it, entry at depth 0 — or structural over the tree's children. On the capped edge the scanner fails and failure propagates.",
 		technique:  "Tarjan SCC inventory over static calls; finite-domain tabulation of the guard; shortest-cycle increment; constructor/store inventory",
@@ -135,11 +135,11 @@ var props = []*core.Property{
 		notCovered: []string{"frame size x 4096 fits the goroutine stack (arithmetic, stated)"},
 		rules:      []*core.Rule{ruleSCC, ruleCap, ruleFailProp}}),
 	mk(pd{id: "C17", level: "other",
-		levelText:  "Every root-level non-text detector is proved prefix-monotone for arbitrary limits by a lock-step two-run argument over its SSA (or hands over to another root-level non-text detector); text is the last root child. Sufficient: if root child D accepts x[:L], D or an earlier non-text sibling accepts x[:L'].",
+		levelText:  "Every root-level non-text detector is proved prefix-monotone for arbitrary limits by a lock-step two-run argument over its SSA (or hands over to another root-level non-text detector); text is the last root child; the bytes entry hands the walk exactly in[:L] and L from one snapshot of the limit. Sufficient: if root child D accepts x[:L], D or an earlier non-text sibling accepts x[:L'].",
 		technique:  "relational (2-safety) abstract interpretation: stable / growing / may-turn-true / may-turn-false classification of values and branches",
 		expl:       "decides monotonicity in the limit of all 96 root-level binary detectors",
 		notCovered: []string{},
-		rules:      []*core.Rule{ruleMonotone, ruleTextNode, ruleTreeWF}}),
+		rules:      []*core.Rule{ruleMonotone, ruleTextNode, ruleTreeWF, ruleLimitSlice, ruleSnapshot}}),
 	mk(pd{id: "C18", level: "other",
 		levelText:  "Tar: 512-byte guard and block; recorded checksum parsed from [148:156) and exactly that window blanked (index table 0..511); per-byte contribution to the (unsigned, signed) sums tabulated over all byte values and checked additive; acceptance is the disjunction of the two equalities; octal parser rejects every non-octal byte.",
 		technique:  "finite-domain tabulation of one loop iteration and of the result expressions; shape rules",
